@@ -3,6 +3,7 @@ import RbV.Lemmas.RankSelect
 import RbV.Lemmas.RankSelectModel
 import RbV.Lemmas.Wavelet
 import RbV.Lemmas.Bytes8
+import RbV.Gen.Dna2Int
 /-!
 # C17 — rank/select and wavelet-matrix queries equal naive counting
 
@@ -96,6 +97,16 @@ theorem occ_oracle (text : List Nat) (c p : Nat) (hp : p < text.length) :
 /-- the symbol-code table of the pinned tree passes the check the driver applies to the printed table … -/
 theorem dna2int_literal_ok : tableOk dna2intLit = true := by decide +kernel
 
+/-- **source-extracted obligation** (DESIGN §8): the `DNA2INT` table extracted from `wavelet_matrix.rs` on *this* run
+(`RbV/Gen/Dna2Int.lean`, rewritten by tools/gen_tables.py before `lake build`) passes the same check — the codes of
+A, C, G, T, N, $ are pairwise distinct and below 8.  The driver runs the mirror model over this table. -/
+theorem dna2int_generated_ok : tableOk Gen.Dna2Int.table = true := by decide +kernel
+
+/-- the extracted number of levels (`let height: usize = 3` in `WaveletMatrix::new`) is the 3 the mirror model
+`Model.Wavelet.build` is written for, and every code of the six symbols fits into that many bits -/
+theorem dna2int_codes_fit_height :
+    Gen.Dna2Int.height = 3 ∧ ∀ a ∈ dnaSyms, Gen.Dna2Int.table.getD a 0 < 2 ^ Gen.Dna2Int.height := by decide +kernel
+
 /-- … and that check means: the codes of A, C, G, T, N, $ are below 8 (three bit levels) and pairwise distinct -/
 theorem tableOk_sound (t : List Nat) (h : tableOk t = true) :
     t.length = 128 ∧ (∀ a ∈ dnaSyms, t.getD a 0 < 8) ∧
@@ -183,14 +194,23 @@ theorem wavelet_rank_correct (t : List Nat) (ht : tableOk t = true) (text : List
   exact RbV.Lemmas.Wavelet.rank_eq_occ _ text c p hp (hlt c hc) (fun x hx => hlt x (htext x hx))
     (fun x hx hxc => hinj x (htext x hx) c hc hxc)
 
+/-- [C] instantiated with the table extracted from the source on this run: no hypothesis about the table is left -/
+theorem wavelet_rank_correct_generated (text : List Nat) (c p : Nat)
+    (hp : p < text.length) (hc : c ∈ dnaSyms) (htext : ∀ x ∈ text, x ∈ dnaSyms) :
+    RbV.Model.Wavelet.rank (fun v => Gen.Dna2Int.table.getD v 0)
+        (RbV.Model.Wavelet.rkSpec (RbV.Model.Wavelet.build (fun v => Gen.Dna2Int.table.getD v 0) text))
+        (RbV.Model.Wavelet.build (fun v => Gen.Dna2Int.table.getD v 0) text) c p
+      = occ text c p :=
+  wavelet_rank_correct Gen.Dna2Int.table dna2int_generated_ok text c p hp hc htext
+
 -- non-vacuity: a 40-bit vector (two superblocks for k = 1, a one at bit 33, a zero run in front)
 def exBits : List Bool := List.replicate 33 false ++ [true, false, true, true, false, false, true]
 example : rank1 40 32 (getBlock exBits) (superblocks true 40 32 (getBlock exBits)) 36 = some 3 := by decide
 example : selectX 40 32 (getBlock exBits) (superblocks true 40 32 (getBlock exBits)) true 4 = some 39 := by decide
 example : selectX 40 32 (getBlock exBits) (superblocks false 40 32 (getBlock exBits)) false 37 = none := by decide
-example : RbV.Model.Wavelet.rank (fun v => dna2intLit.getD v 0)
-    (RbV.Model.Wavelet.rkSpec (RbV.Model.Wavelet.build (fun v => dna2intLit.getD v 0) [65, 67, 78, 36, 78, 65]))
-    (RbV.Model.Wavelet.build (fun v => dna2intLit.getD v 0) [65, 67, 78, 36, 78, 65]) 78 4 = 2 := by decide
+example : RbV.Model.Wavelet.rank (fun v => Gen.Dna2Int.table.getD v 0)
+    (RbV.Model.Wavelet.rkSpec (RbV.Model.Wavelet.build (fun v => Gen.Dna2Int.table.getD v 0) [65, 67, 78, 36, 78, 65]))
+    (RbV.Model.Wavelet.build (fun v => Gen.Dna2Int.table.getD v 0) [65, 67, 78, 36, 78, 65]) 78 4 = 2 := by decide
 
 end models
 
